@@ -1991,3 +1991,23 @@ package kcache
   requires (and (not (= {m} vnil)) (not (= {m.lc} vnil)) (not (= {m.sub} vnil)))
   ensures [its-own-failure-first-else-the-subscriptions] (= result (ite (not (= (lc-error {m.lc}) vnil)) (lc-error {m.lc}) (sub-error {m.sub})))
 @*/
+
+/*@ func (*kcache.builder).Client
+  props C03 C04
+  note the one client given to the builder is used by both the lister and the watcher
+  requires (and (not (= {b} vnil)) (not (= {b.lb} vnil)) (not (= {b.wb} vnil)) (not (= {b.lb} {b.wb})))
+  ghost nl : Int := 0
+  ghost nw : Int := 0
+  modifies b.lb.client b.wb.client
+  at call(Client)#1 assert [the-listers-client] (and (= $0 {b.lb}) (= $1 {client}))
+  at call(Client)#1 set nl := (+ nl 1)
+  at call(Client)#2 assert [the-watchers-client] (and (= $0 {b.wb}) (= $1 {client}))
+  at call(Client)#2 set nw := (+ nw 1)
+  exit [both-set-once] (and (= nl 1) (= nw 1) (= result {b}))
+@*/
+/*@ func (*kcache.builder).Log
+  props C03
+  requires (not (= {b} vnil))
+  modifies b.log
+  ensures (and (= {b.log} {log}) (= result {b}))
+@*/
